@@ -52,8 +52,27 @@ impl World {
         if self.searchers.len() >= MAX_SEARCHERS {
             return Ok(Exec::Skipped);
         }
-        let b = self.chain.last().clone();
-        let origin = Full::of(&b);
+        // half of the private boards are made by clone(), half by clone_from() into a board that
+        // held another position
+        let b = if self.step % 2 == 0 {
+            self.chain.last().clone()
+        } else {
+            let mut other = self.rc.replayed[0].clone();
+            other.clone_from(self.chain.last());
+            other
+        };
+        let origin = Full::of(self.chain.last());
+        if let Some(d) = Full::of(&b).diff(&origin) {
+            for p in [C05, C02] {
+                if self.on(p) {
+                    return Err(self.fail(
+                        p,
+                        if p == C05 { "hidden-state" } else { "invalid-position" },
+                        format!("a copy of the board (clone / clone_from) differs from its original (copy vs original): {}", d),
+                    ));
+                }
+            }
+        }
         self.searchers.push(Searcher { board: b, origin, stack: vec![], nodes: 0, tainted: false });
         self.stats.hit("op.spawn-searcher");
         Ok(Exec::Done)
